@@ -1146,6 +1146,16 @@ func (s *manifestStore) deleteWithIndexing(ctx context.Context, target ocispec.D
 			return err
 		}
 		if err := s.indexReferrersForDelete(ctx, target, manifestJSON); err != nil {
+			var re *ReferrersError
+			if !errors.As(err, &re) || !re.IsReferrersIndexDelete() {
+				return err
+			}
+			// the referrers index has been updated and only the clean up of
+			// the dangling index failed: the manifest still has to be deleted
+			// before the clean up error is reported
+			if deleteErr := s.repo.delete(ctx, target, true); deleteErr != nil {
+				return deleteErr
+			}
 			return err
 		}
 	}
